@@ -134,8 +134,9 @@ void ppMinPoly(word b[], const word a[], size_t l, void* stack)
 	stack = db + m + n + 2;
 	// pre
 	ASSERT(wwIsValid(b, m) && wwIsValid(a, 2 * n));
-	// aa <- a
-	wwCopy(aa, a, 2 * n);
+	// aa <- a ([W_OF_B(2 * l)]a)
+	wwCopy(aa, a, W_OF_B(2 * l));
+	wwSetZero(aa + W_OF_B(2 * l), 2 * n - W_OF_B(2 * l));
 	wwTrimHi(aa, 2 * n, 2 * l);
 	na = wwWordSize(aa, 2 * n);
 	// bb <- x^{2l}
@@ -175,7 +176,10 @@ size_t ppMinPoly_deep(size_t l)
 {
 	const size_t n = W_OF_B(l);
 	const size_t m = W_OF_B(l + 1);
-	return O_OF_W(8 * n + 2 * m + 5) + ppAddMulW_deep(m);
+	return O_OF_W(8 * n + 2 * m + 5) + 
+		utilMax(2,
+			ppAddMulW_deep(m),
+			ppDiv_deep(2 * n + 1, 2 * n));
 }
 
 void ppMinPolyMod(word b[], const word a[], const word mod[], size_t n,
